@@ -39,3 +39,16 @@ Proof.
   intros pre l0 c post E. destruct pre as [|a0 [|a1 [|a2 [|a3 [|a4 [|a5 pre]]]]]]; cbn in E; try discriminate;
     try (injection E; intros; subst; cbn; tauto).
 Qed.
+
+(* ---------- the correlator of the model is the correlator of the source ----------
+   Gen/TrackerProg.v is REGENERATED on every run by translating sessiontracker.go (RemoteLogin,
+   AuditdEvent with both of its branches, the two cleanups, writeAndClearCache, the map operations
+   they perform, deferred deletes, early returns and error classes) into a small deep-embedded
+   language (Model/TrackerIR.v).  For EVERY state and EVERY operation the hand-written [tstep] of
+   Model/Tracker.v, on which the theorems of this file rest, IS the interpretation of the generated
+   programs, and that interpretation never gets stuck. *)
+From AM Require Model.TrackerIR Gen.TrackerProg Proofs.TrackerIRTie.
+Theorem C10_tracker_from_source : forall st o,
+  Proofs.TrackerIRTie.run_generated st o = Some (Model.Tracker.tstep st o).
+Proof. exact Proofs.TrackerIRTie.tracker_from_source. Qed.
+Print Assumptions C10_tracker_from_source.
